@@ -16,11 +16,13 @@ CONSTANTS MaxObj,      \* bound on heap size (allocation guard)
           Acts,        \* enabled action names (configs focus on dict / rows / alias behaviour)
           IdxUse,      \* index kinds offered to index/slice in Next
           OpsUse,      \* in-place operators offered in Next
-          ObjUse       \* objects offered as target / right operand of in-place operators in Next ({} = all)
+          ObjUse,      \* objects offered as target / right operand of in-place operators in Next ({} = all)
+          GrpUse       \* groups offered to the group actions in Next ({} = all)
 
 VARIABLES heap, bufs, dgs, dss, res, hist, act
 vars == <<heap, bufs, dgs, dss, res, hist, act>>
 View == <<heap, bufs, dgs, dss, res, Len(hist)>>     \* observation variables stay out of the fingerprint
+ViewPath == <<heap, bufs, dgs, dss, res, hist>>      \* ... unless every PATH is wanted: an implementation may remember how a state was reached (a cache)
 
 NoRes == [t |-> "none"]
 Exc(e) == [t |-> "exc", e |-> e]
@@ -419,7 +421,7 @@ DsDeepCopy(d) ==
         /\ res' = [t |-> "ds", d |-> Len(dss) + 1]
 
 \* ------------------------------------------------------------------ next-state relation
-Gs == 1..Len(dgs)
+Gs == IF GrpUse = {} THEN 1..Len(dgs) ELSE GrpUse \cap 1..Len(dgs)
 Os == 1..Len(heap)
 PairSeqs == {<<<<k, o>>>> : k \in Keys, o \in PoolObjs} \cup {<<<<"a", o1>>, <<"b", o2>>>> : o1 \in {1, 5}, o2 \in {2, 3, 4}}
             \cup {<<<<"b", o2>>, <<"a", o1>>>> : o1 \in {1, 5}, o2 \in {2, 7}}        \* the same items inserted in the other order
